@@ -1,5 +1,6 @@
 """spec -> real labrea objects, every user callable a probe (DESIGN §2.2)."""
 import copy
+import functools
 import inspect
 
 from . import boot  # noqa: F401  (path set-up)
@@ -348,6 +349,9 @@ class Built:
                 log.hit("callback", pid)
                 return ("cb", name, value)
 
+            if name == "c2":
+                # any callable is a legal callback: a functools.partial / a callable object has no __name__
+                callback = functools.partial(_callback_impl, log, pid, name) if int(did) % 2 else _CallbackObject(log, pid, name)
             kw["callback"] = callback
         if d.get("effects"):
             kw["effects"] = [self._effect(did, i) for i, _ in enumerate(d["effects"])]
@@ -465,6 +469,21 @@ class Built:
             self.overload_ds[(did, tag)] = new
             self.dataset_ids[id(new)] = f"{did}/{tag}"
             self.caches.append((f"ds{did}/{tag}", new.cache))
+
+
+def _callback_impl(log, pid, name, value):
+    log.hit("callback", pid)
+    return ("cb", name, value)
+
+
+class _CallbackObject:
+    """A callback that is an object with __call__ (no __name__, no __qualname__ of its own)."""
+
+    def __init__(self, log, pid, name):
+        self.log, self.pid, self.name = log, pid, name
+
+    def __call__(self, value):
+        return _callback_impl(self.log, self.pid, self.name, value)
 
 
 class BuildFailed(Exception):
